@@ -716,8 +716,24 @@ func (w *worker) runJob(job *Job) (tr *Trace) {
 	if job.Script != nil && len(job.Calls) == 0 {
 		job.Calls = [][]Answer{nil}
 	}
+	var ttyBase *unix.Termios
+	if len(cfg.TtyAlt) > 0 {
+		ttyBase, _ = unix.IoctlGetTermios(w.slave, unix.TCGETS)
+		defer func() {
+			if ttyBase != nil {
+				unix.IoctlSetTermios(w.slave, unix.TCSETS, ttyBase)
+			}
+		}()
+	}
 	for ci, answers := range job.Calls {
-		_ = ci
+		if ttyBase != nil {
+			t := *ttyBase
+			if ci < len(cfg.TtyAlt) && cfg.TtyAlt[ci] {
+				t.Iflag &^= unix.IXON
+				t.Cc[unix.VERASE] = 0x08
+			}
+			unix.IoctlSetTermios(w.slave, unix.TCSETS, &t)
+		}
 		run.answers, run.idx, run.waits, run.nwaits, run.log, run.eofReads, run.pending = answers, 0, nil, 0, nil, 0, nil
 		run.want = job.Want
 		w.mu.Lock()
